@@ -35,7 +35,7 @@ Definition at_dl (a : atpc) : bool := match a with AtAcq => false | _ => true en
 
 Definition io_rl (pc : iopc) : bool :=
   match pc with
-  | IoRcWc | IoRcCwf | IoRcItem | IoRcChk | IoRcSc _ | IoRcApp | IoRcApp2 | IoRcLen | IoRcAt _ | IoRcRel | IoRcRelX => true
+  | IoRcWc | IoRcCwf | IoRcItem | IoRcChk | IoRcSc _ | IoRcApp | IoRcApp2 | IoRcLen | IoRcAt _ | IoRcRel => true
   | _ => false
   end.
 Definition io_ol (pc : iopc) : bool :=
@@ -49,7 +49,7 @@ Definition io_dl (pc : iopc) : bool := match pc with IoRcAt a => at_dl a | _ => 
 
 Definition wk_rl (pc : wkpc) : bool :=
   match pc with
-  | WCbCwf | WCbReq | WCbClr | WCbRel | WKbPop | WKbConn | WKbReq | WKbAt _ | WKbConn2 | WKbSc _ | WKbRel | WKbRelX => true
+  | WCbCwf | WCbReq | WCbClr | WCbRel | WKbPop | WKbConn | WKbReq | WKbAt _ | WKbConn2 | WKbSc _ | WKbRel => true
   | _ => false
   end.
 Definition wk_ol (pc : wkpc) : bool :=
